@@ -653,12 +653,8 @@ pub fn decode_metadatum_to_json_value(
                 Ok(bytes_to_hex_string(b.as_ref()))
             }
             TransactionMetadatumEnum::Int(i) if schema != MetadataJsonSchema::NoConversions => {
-                let int_str = if i.0 >= 0 {
-                    u64::try_from(i.0).map(|x| x.to_string())
-                } else {
-                    i64::try_from(i.0).map(|x| x.to_string())
-                };
-                int_str.map_err(|e| JsError::from_str(&e.to_string()))
+                // keys are strings in JSON, so the whole Int range -2^64..2^64-1 can be written
+                Ok(i.0.to_string())
             }
             TransactionMetadatumEnum::MetadataList(list)
                 if schema == MetadataJsonSchema::DetailedSchema =>
